@@ -2,6 +2,9 @@
 import TF.Drv.Proto
 import TF.Drv.Poly
 import TF.Model.PolyVal
+import TF.Model.PolyApi
+import TF.Model.PolyInterp
+import TF.Drv.PolyDiv
 /-!
 driver handler for the family `polyv` (C17): every public operation of `Polynomial<FF>` that the models cover, called
 on the raw storage given in the op line (stored leading zeros included).
@@ -65,7 +68,7 @@ def run {α : Type} (io : Io α) (op : String) (args : List Arg) : Option String
   | "scalar_mul", [a, s] => do let a ← io.poly? a; let s ← io.elem? s; pure (okP (scalarMul F a s))
   | "scalar_mul_mut", [a, s] => do let a ← io.poly? a; let s ← io.elem? s; pure (okP (scalarMul F a s))
   | "scale", [a, s] => do let a ← io.poly? a; let s ← io.elem? s; pure (okP (scale F a s))
-  | "truncate", [a, .nat k] => do let a ← io.poly? a; pure (okP (truncate F a k))
+  | "truncate", [a, .nat k] => do let a ← io.poly? a; pure (okP (truncateUsize F a k))
   | "mod_x_to_the_n", [a, .nat n] => do let a ← io.poly? a; pure (okP (modXToTheN a n))
   | "eq", [a, b] => do let a ← io.poly? a; let b ← io.poly? b; pure ("ok:" ++ fmtBool (eq F a b))
   | "hash_eq", [a, b] => do
@@ -84,9 +87,97 @@ def run {α : Type} (io : Io α) (op : String) (args : List Arg) : Option String
   | "par_batch_multiply", [fs] => do
       -- the thread count is whatever the machine has; the result does not depend on it (C07)
       let fs ← polys? io fs; pure (okPO (parBatchMultiply F thr io.T 1 fs))
+  -- ---- G07: constructors, scalar operators (docs/POLY_API_COVERAGE.md)
+  | "x_to_the", [.nat n] => pure (okP (xToThe F n))
+  | "from_constant", [c] => do let c ← io.elem? c; pure (okP (fromConstant c))
+  | "zero", [] => pure (okP (zero : List α))
+  | "one", [] => pure (okP (one F))
+  | "from_vec", [a] => do let a ← io.poly? a; pure (okP (fromList a))
+  | "from_array", [a] => do let a ← io.poly? a; pure (okP (fromList a))
+  | "mul_scalar", [a, s] => do let a ← io.poly? a; let s ← io.elem? s; pure (okP (scalarMul F a s))
+  | "scalar_times", [a, s] => do let a ← io.poly? a; let s ← io.elem? s; pure (okP (scalarMul F a s))
+  -- ---- G07: the operations modelled for C08/C09, on the storage given in the line (they were `skip` before)
+  | "divide", [a, d] => do
+      let a ← io.poly? a; let d ← io.poly? d
+      pure (match Model.PolyD.naiveDivide F a d with
+        | some (q, r) => "ok:" ++ io.fmtP (normalize F q) ++ "|" ++ io.fmtP (normalize F r) | none => "panic")
+  | "naive_divide", [a, d] => do
+      let a ← io.poly? a; let d ← io.poly? d
+      pure (match Model.PolyD.naiveDivide F a d with
+        | some (q, r) => "ok:" ++ io.fmtP (normalize F q) ++ "|" ++ io.fmtP (normalize F r) | none => "panic")
+  | "div", [a, d] => do let a ← io.poly? a; let d ← io.poly? d; pure (okPO (Model.PolyD.div F a d))
+  | "rem", [a, d] => do let a ← io.poly? a; let d ← io.poly? d; pure (okPO (Model.PolyD.rem F a d))
+  | "xgcd", [a, b] => do
+      let a ← io.poly? a; let b ← io.poly? b
+      pure (match Model.PolyD.xgcd F a b with
+        | some (g, x, y) => "ok:" ++ io.fmtP (normalize F g) ++ "|" ++ io.fmtP (normalize F x) ++ "|" ++ io.fmtP (normalize F y)
+        | none => "panic")
+  | "reduce", [a, m] => do
+      let a ← io.poly? a; let m ← io.poly? m
+      pure (okPO (Model.PolyD.reduce F (Model.PolyD.nttExec F) TF.Gen.FAST_REDUCE_MAKES_SENSE_MULTIPLE TF.Gen.FAST_REDUCE_CUTOFF_THRESHOLD
+        TF.Drv.PolyDiv.STAGE2_MULTIPLE a m))
+  | "fast_reduce", [a, m] => do
+      let a ← io.poly? a; let m ← io.poly? m
+      pure (okPO (Model.PolyD.fastReduce F (Model.PolyD.nttExec F) TF.Gen.FAST_REDUCE_CUTOFF_THRESHOLD TF.Drv.PolyDiv.STAGE2_MULTIPLE a m))
+  | "reduce_by_ntt_friendly_modulus", [a, m] => do
+      let a ← io.poly? a; let m ← io.poly? m
+      pure (okPO (do
+        let (v, t) ← Model.PolyD.shiftFactorNtt F (Model.PolyD.nttExec F) TF.Gen.FAST_REDUCE_CUTOFF_THRESHOLD m
+        Model.PolyD.reduceByNttFriendlyModulus F (Model.PolyD.nttExec F) a v t))
+  | "shift_factor_ntt_with_tail_length", [m] => do
+      let m ← io.poly? m
+      pure (match Model.PolyD.shiftFactorNtt F (Model.PolyD.nttExec F) TF.Gen.FAST_REDUCE_CUTOFF_THRESHOLD m with
+        | some (v, t) => s!"ok:{io.fmtP v}|{t}" | none => "panic")
+  | "structured_multiple_of_degree", [a, .nat n] => do
+      let a ← io.poly? a; pure (okPO (Model.PolyD.structuredMultipleOfDegree F a n))
+  | "formal_power_series_inverse_newton", [a, .nat n] => do
+      let a ← io.poly? a
+      pure (okPO (Model.PolyD.fpsInverseNewton F (Model.PolyD.nttExec F) TF.Gen.FORMAL_POWER_SERIES_INVERSE_CUTOFF a n))
+  | "fast_coset_evaluate", [a, s, .nat order] => do
+      let a ← io.poly? a; let s ← io.elem? s
+      pure (match Model.PolyI.fastCosetEvaluate F (Model.PolyI.Ext.std F) a s order with
+        | some v => "ok:" ++ io.fmtP v | none => "panic")
+  | "batch_evaluate", [a, d] => do
+      let a ← io.poly? a; let d ← io.poly? d
+      pure (match Model.PolyI.batchEvaluate F (Model.PolyI.Ext.std F) a d with | some v => "ok:" ++ io.fmtP v | none => "panic")
+  | "par_batch_evaluate", [a, d] => do
+      -- the thread count is whatever the machine has; the result does not depend on it (C08)
+      let a ← io.poly? a; let d ← io.poly? d
+      pure (match Model.PolyI.parBatchEvaluate F (Model.PolyI.Ext.std F) 1 a d with | some v => "ok:" ++ io.fmtP v | none => "panic")
+  | "iterative_batch_evaluate", [a, d] => do
+      let a ← io.poly? a; let d ← io.poly? d
+      pure ("ok:" ++ io.fmtP (Model.PolyI.iterativeBatchEvaluate F a d))
+  | "divide_and_conquer_batch_evaluate", [a, d] => do
+      let a ← io.poly? a; let d ← io.poly? d
+      pure (match (do let t ← Model.PolyI.newFromDomain F (Model.PolyI.Ext.std F) d; Model.PolyI.dcEval F (Model.PolyI.Ext.std F) a t) with
+        | some v => "ok:" ++ io.fmtP v | none => "panic")
+  | "fmci_modulus", [.nat off, v, m] => do
+      let v ← io.poly? v; let m ← io.poly? m
+      pure (okPO (Model.PolyI.fmci F (Model.PolyI.Ext.std F) Model.PolyI.Thr.src v (F.ofNat off) m))
   | _, _ => none
 
+def okXt (p : List X3) : String := "ok:" ++ fmtTripleList (normalize FX p)
+
 def polyv : Handler
+  -- base-field only / mixed-field operations
+  | "clean_divide", [.sym "b", q, d] => do
+      -- the dividend is given as quotient and divisor, so that the division is clean
+      let q ← bPoly? q; let d ← bPoly? d
+      match multiply FB thr TB q d with
+      | none => pure "panic"
+      | some a =>
+        pure (match Model.PolyD.cleanDivide bfieldOps xfieldOps TF.Drv.PolyDiv.bxExt (Model.PolyD.nttExec xfieldOps)
+            TF.Gen.CLEAN_DIVIDE_CUTOFF_THRESHOLD a d with
+          | some r => "ok:" ++ fmtList (normalize FB r) | none => "panic")
+  | "from_xfe", [.sym "b", c] => do let c ← xElem? c; pure ("ok:" ++ fmtList (normalize FB (fromXfe c)))
+  | "mul_scalar", [.sym "bx", a, s] => do let a ← bPoly? a; let s ← xElem? s; pure (okXt (scalarMulG mulBX a s))
+  | "scalar_times", [.sym "bx", a, s] => do let a ← bPoly? a; let s ← xElem? s; pure (okXt (scalarMulG mulBX a s))
+  | "mul_scalar", [.sym "xb", a, .nat s] => do let a ← xPoly? a; pure (okXt (scalarMulG mulXB a (s % P)))
+  | "scalar_times", [.sym "xb", a, .nat s] => do let a ← xPoly? a; pure (okXt (scalarMulG mulXB a (s % P)))
+  | "evaluate_mixed", [.sym "bx", a, x] => do
+      let a ← bPoly? a; let x ← xElem? x; pure ("ok:" ++ fmtTriple (evaluateLift FX xlift a x))
+  | "evaluate_mixed", [.sym "xb", a, .nat x] => do
+      let a ← xPoly? a; pure ("ok:" ++ fmtTriple (evaluateLift FX id a (xlift (x % P))))
   | op, .sym "b" :: args => run ioB op args
   | op, .sym "x" :: args => run ioX op args
   | _, _ => none
